@@ -163,9 +163,11 @@ def gen_crash_points():
     pts = _walk_points(discover, "discover") + _walk_points(connect, "_connect")
     if not any(p[2] == "pending" for p in pts if p[0] == "_connect") or not any(p[2] == "pending" for p in pts if p[0] == "discover"):
         raise Untranslatable("no create_datagram_endpoint await found in _connect / discover")
-    pump_sleeps = [n.lineno for n in ast.walk(pump) if isinstance(n, ast.Await) and "sleep" in ast.unparse(n)]
+    pump_sleeps = [n.lineno for n in ast.walk(pump) if isinstance(n, ast.Await) and "asyncio.sleep" in ast.unparse(n)]
     if len(pump_sleeps) != 1:
-        raise Untranslatable("_sequence_pump: expected exactly one sleep")
+        raise Untranslatable("_sequence_pump: expected exactly one idle sleep")
+    # the pause of the retry rule (spa not found: wait, then reset): one more suspension point of the pump, holding nothing
+    retry_pauses = [n.lineno for n in ast.walk(pump) if isinstance(n, ast.Await) and "config_sleep" in ast.unparse(n)]
     # does the pump survive an exception of locate / connect?  (a handler for Exception / BaseException / bare except that does not re-raise)
     survives = False
     for n in ast.walk(pump):
@@ -212,6 +214,7 @@ def gen_crash_points():
            "structure CrashPoint where\n  proc : String\n  line : Nat\n  endpoint : EndpState\n  tasksSpawned : Bool\nderiving Repr, DecidableEq\n",
            "def crashPoints : List CrashPoint := [\n" + ",\n".join(
                f"  ⟨{T.lstr(p)}, {ln}, .{e}, {'true' if t else 'false'}⟩" for p, ln, e, t in pts) + ",\n" +
+           "".join(f"  ⟨\"pump-retry-pause\", {ln}, .no, false⟩,\n" for ln in retry_pauses) +
            f"  ⟨\"pump-idle\", {pump_sleeps[0]}, .no, false⟩,\n  ⟨\"pump-connected\", {pump_sleeps[0]}, .yes, true⟩]\n",
            "structure TeardownFacts where\n" + "\n".join(f"  {k} : Bool" for k in facts) + "\nderiving Repr, DecidableEq\n",
            "def teardownFacts : TeardownFacts := {\n" + ",\n".join(f"  {k} := {'true' if v else 'false'}" for k, v in facts.items()) + " }\n",
